@@ -62,7 +62,7 @@ func Worker(shard, n int, tier string) *engine.Result {
 	res := engine.NewResult(Prop)
 	f := replica.NewFix()
 	f.Battery = true
-	base := replica.Templates()
+	base := append(replica.Templates(), replica.StateShapeTemplates()...)
 	tmpl := append(append([]replica.Template{}, base...), replica.GovTemplates()...)
 	ps := plans(tier, tmpl, len(base))
 	res.Extra["histories"] = len(ps)
